@@ -6,6 +6,42 @@ import json, os, subprocess, sys
 VERIF = os.path.dirname(os.path.dirname(os.path.abspath(__file__)))
 
 CLAIMED = {
+    "C01": dict(
+        text="Coq theorems on the LSM model: the lookup path (memtable, immutable memtable, level-0 files newest first, one file per deeper level found by binary search) returns exactly the newest entry at or below the sequence bound among ALL entries, for every well-formed state (db_get_correct); a write batch updates the result like a sorted map (C01_write_then_get); every admissible run of writes, rotations, flushes, compactions, trivial moves keeps the state well formed (reachable_wf, shared with C10). Tied to the code by whole-database histories compared with the extracted map specification, by judging every structural dump of the real database with the extracted invariant lsm_wf_b and lookup path, and by function-level differential execution of the lookup-candidate functions.",
+        note="Trusted: Coq kernel, extraction, glue, the DB::verif_dump hook. The correspondence between individual implementation steps and model steps is checked on states (dumps), not yet step by step (trace refinement is future work). Table files answer lookups as proved in C13.",
+        design="6 / C01",
+        technique="machine-checked proof in Coq (invariant by induction over all step sequences with oracle-chosen internal steps; refinement to a sorted map) + checked model-code correspondence",
+    ),
+    "C03": dict(
+        text="Coq theorem snapshot_stable: a live snapshot's view (and every get at it) is unchanged by any admissible run of writes, rotations, flushes, compactions and trivial moves that does not release it (multiset version for duplicate snapshots). Tied to the code by histories in which snapshots and iterators outlive writes, flushes and compactions, compared with frozen copies of the specification map.",
+        note="Trusted as for C01. Iterators without an explicit snapshot pin a version; the deletion-safety part for pinned versions is exercised by the pause-point schedules (C05) and the directory checks (C11), not proved.",
+        design="6 / C03",
+        technique="machine-checked proof in Coq (corollary of the LSM invariant and step invisibility) + checked model-code correspondence",
+    ),
+    "C07": dict(
+        text="Coq theorems: the merge with the drop rule preserves every view at or above the oldest snapshot (compact_preserves_visible, with necessity witnesses for each hypothesis); compaction input selection is closed under user-key overlap and boundary files on both paths (finalize_inputs_closed) and installing the outputs keeps the version well formed; every internal step (rotation, flush, compaction, trivial move) leaves all views >= oldest snapshot and all gets unchanged (internal_step_invisible). Tied to the code by function-level differential execution of every selection function, the closure predicate evaluated on the implementation's chosen inputs, and whole-database histories with snapshots and manual compactions.",
+        note="Trusted as for C01. The proof attempt of input closure found defect D14 (expansion path without parent boundary files), reproduced on the database and repaired.",
+        design="6 / C07",
+        technique="machine-checked proof in Coq (list-level merge lemma, selection closure, invariant preservation) + checked model-code correspondence",
+    ),
+    "C09": dict(
+        text="Coq theorems: no step of the LSM state machine from a well-formed state trips an assertion of the code and well-formedness is preserved along every admissible run (the worker never panics); input selection is total; the level-0 restart loop, the boundary-file loop, the two-level iterator skip loops and the log reader terminate within their fuel without panic. Liveness (bounded wall-clock time, condvar protocol, fairness) is not proved; it is exercised by watchdogs, panic hooks, pause-point schedules of the background thread and all descriptor kinds.",
+        note="Partial: termination of modelled loops and absence of panics are proved; blocking behaviour (writers waiting for the worker, close) is only tested.",
+        design="6 / C09",
+        technique="machine-checked proof in Coq (fuel sufficiency, no-panic invariant) + watchdog/panic-hook exploration",
+    ),
+    "C10": dict(
+        text="Coq theorem reachable_shape_ok: in every state reachable by any admissible run, levels >= 1 are sorted and pairwise disjoint, every file's bounds are exactly its first and last entry with smallest <= largest, and file numbers are unique (part of the invariant lsm_wf_b, which is preserved by every step and never panics). Tied to the code by judging every structural dump (file bounds plus entries read back from each table) with the extracted invariant, cross-checking SSTables / NumFilesAtLevel against the dump, across reopens with changed options.",
+        note="Trusted as for C01. The manifest codec (persist/recover) is exercised by reopen histories but not yet modelled byte for byte.",
+        design="6 / C10",
+        technique="machine-checked proof in Coq (invariant by induction over all step sequences) + checked model-code correspondence",
+    ),
+    "C17": dict(
+        text="Coq theorems on a lock-table model of open / close / destroy_database: in every reachable state at most one handle is open and it is the lock owner; a failed open or destroy changes nothing; while a handle is open every further open and destroy fails; after a close exactly one of any set of racing opens succeeds. Tied to the code by scripts and thread races on TmpFileSystem (real flock) compared step by step with the extracted model.",
+        note="Assumes kernel flock semantics (one holder per open file description, released on close).",
+        design="6 / C17",
+        technique="machine-checked proof in Coq (invariant over all interleavings of atomic actions) + checked model-code correspondence",
+    ),
     "C13": dict(
         text="Coq theorems about a model of keys, blocks and tables: internal-key order is a strict total preorder; shortest separator/successor lie between their arguments and their assertions never fire; every sorted entry list cut at arbitrary block boundaries builds a well-formed table; block encode/decode round trip for every restart interval; BlockIter and the two-level iterator refine a sorted-list cursor under arbitrary cursor operations; Table::get answers value/deletion/not-in-this-file exactly as the newest entry at or below the bound dictates. Tied to the code by differential execution (byte-exact for keys and blocks, entry level for tables built by the real TableBuilder).",
         note="Trusted: Coq kernel, extraction, glue. Modelled rather than verified: Snappy framing, block trailer, footer, metaindex, block cache (exercised by the correspondence only).",
